@@ -5,6 +5,7 @@ import (
 	"errors"
 	"fmt"
 	"math/rand"
+	"slices"
 	"strings"
 	"time"
 
@@ -506,6 +507,17 @@ func (d *dealer) syncRegister(callee *wamp.Session, msg *wamp.Register, match, i
 		}
 
 		regID = reg.id
+
+		// A callee that repeats its registration is already a member of the
+		// shared registration; it must not be added twice, otherwise a single
+		// UNREGISTER or the end of its session leaves a stale callee behind.
+		if slices.Contains(reg.callees, callee) {
+			d.trySend(callee, &wamp.Registered{
+				Request:      msg.Request,
+				Registration: regID,
+			})
+			return metaPubs
+		}
 
 		// Add callee for the registration.
 		reg.callees = append(reg.callees, callee)
